@@ -21,6 +21,18 @@ def showState (d : State) : String :=
     s!"{a.nonce}:{a.hash}:" ++ ".".intercalate (a.votes.map toString) ++ s!":{if a.observed then 1 else 0}")
   s!"last={s.lastObserved} eth={s.lastEth} nonces={nonces} atts={aS} minted={s.minted}"
 
+/-- `endblock <powers> <total> [<nonce>:<hash>,… | -]`: the last field lists the attestations whose
+    observation event cannot be emitted in this block (collaborator fault) -/
+def endblock (d : State) (kind ps total faults : String) : State × String :=
+  if kind != "endblock" && kind != "endblock50" then (d, "bad-op") else
+  match parsePairList? ps, parseNat? total, parsePairList? faults with
+  | some ps, some total, some fl =>
+    let s1 := tally d.s (powerOf ps) total (faultOf fl)
+    let s2 := if kind == "endblock50" then catchUp s1 else s1
+    let d' : State := { d with s := s2 }
+    (d', showState d')
+  | _, _, _ => (d, "bad-op")
+
 /-- amount carried by the harness' claims: not part of the oracle model; recomputed from effects -/
 def step (d : State) (args : List String) : State × String :=
   match args with
@@ -32,15 +44,8 @@ def step (d : State) (args : List String) : State × String :=
       let d' := { d with s := s' }
       ((d'), (if r == .ok then "ok " else "rejected ") ++ showState d')
     | _, _, _, _, _, _ => (d, "bad-op")
-  | [kind, ps, total] =>
-    if kind != "endblock" && kind != "endblock50" then (d, "bad-op") else
-    match parsePairList? ps, parseNat? total with
-    | some ps, some total =>
-      let s1 := tally d.s (powerOf ps) total
-      let s2 := if kind == "endblock50" then catchUp s1 else s1
-      let d' : State := { d with s := s2 }
-      (d', showState d')
-    | _, _ => (d, "bad-op")
+  | [kind, ps, total] => endblock d kind ps total "-"
+  | [kind, ps, total, faults] => endblock d kind ps total faults
   | ["override", n] =>
     match parseNat? n with
     | some n => let d' := { d with s := override d.s n }; (d', showState d')
